@@ -107,6 +107,9 @@ fn b(x: bool) -> String {
 
 /// Runs the real code; returns the output fields (`impl`, and the reference fields monitors use).
 pub fn run_impl(c: &Case) -> Vec<(String, String)> {
+    if let Some(v) = crate::extra::run_extra(c) {
+        return v;
+    }
     let tag = c.tag.as_str();
     let mut out = vec![];
     let imp: Option<String> = match c.cmd.as_str() {
